@@ -31,9 +31,10 @@ RULE = ("session = login (FTPShell for every command, FTPAnonymousShell for the 
         "attack paths (deep '..' chains, real absolute path of the sibling, LIST flags).  Data commands run over a real "
         "DTP set up through PASV with an injected listenFactory.  non-trivial = a session whose path contains '..', NUL, "
         "an empty/odd segment or names the sibling")
-BOUNDS = {"quick": "paths: 17 + 17^2 + 6^3 segment joins x {relative, absolute} + 45 hand-written; 3 cwd prefixes x 12 "
-                   "command forms (FTPShell) + 6 read commands (anonymous) + 4 failing-CWD prefixes on the hand-written set",
-          "thorough": "paths: 17^3 segment joins in addition; 4 cwd prefixes"}
+BOUNDS = {"quick": "1040 paths (17 + 17^2 + 6^3 segment joins x {relative, absolute}, 55 hand-written, 12 benign); "
+                   "3 cwd prefixes x 12 command forms (FTPShell) + 6 read commands (anonymous) + 5 further prefixes "
+                   "(failing CWDs, CWD a;CDUP) x 12 command forms on the hand-written set",
+          "thorough": "10178 paths (17^3 segment joins in addition); 4 cwd prefixes on the full path set"}
 ASSUMPTIONS = [
     "CPython audit events cover open/list/create/rename/delete; os.stat is not audited, so SIZE/MDTM-only escapes are "
     "visible through observation 3 only and are recorded as an outcome, not judged (the statement lists open, list, "
@@ -42,8 +43,8 @@ ASSUMPTIONS = [
     "no symbolic links in the scratch tree ('symbolic links aside')",
     "the reactor is a task.Clock stand-in installed before twisted.protocols.ftp is imported; only zero-delay calls run",
 ]
-MIN = {"quick": {"evaluations": 25000, "nontrivial": 15000, "outcomes": 8},
-       "thorough": {"evaluations": 200000, "nontrivial": 100000, "outcomes": 8}}
+MIN = {"quick": {"evaluations": 33000, "nontrivial": 28000, "outcomes": 16},
+       "thorough": {"evaluations": 380000, "nontrivial": 360000, "outcomes": 16}}
 
 SIB = "{SIB}"      # placeholder: real absolute path of the sibling directory
 ROOT = "{ROOT}"    # placeholder: real absolute path of the root
